@@ -497,3 +497,29 @@ Theorem fail_fast_order_refuted :
   fs_get (fst (run_batch N b_xform true 0 b_items_dir b_fs_bad)) (b_out b_a) <>
   fs_get (fst (run_batch N b_xform true 0 (rev b_items_dir) b_fs_bad)) (b_out b_a).
 Proof. split; [apply Permutation_rev|]. vm_compute. discriminate. Qed.
+
+(** the hypotheses of the order / isolation theorems hold for the instance when the output is a
+    separate directory: [main.lua] reads [src/a.lua], which no item writes *)
+Lemma b_dir_wf : wf_items b_items_dir.
+Proof.
+  split.
+  - vm_compute. repeat constructor; cbn; intuition discriminate.
+  - intros a b Ha Hb Hab. exfalso. cbn in Ha, Hb.
+    destruct Ha as [<-|[<-|[<-|[]]]], Hb as [<-|[<-|[<-|[]]]]; vm_compute in Hab; discriminate.
+Qed.
+
+Lemma b_dir_reads_no_output c : reads_no_output N b_xform c b_items_dir.
+Proof.
+  intros s txt g g' H. unfold b_xform.
+  assert (Ha : fs_get g b_a = fs_get g' b_a).
+  { apply H. vm_compute. intros [E|[E|[E|[]]]]; discriminate. }
+  rewrite Ha. reflexivity.
+Qed.
+
+Theorem b_dir_order_irrelevant items' f :
+  Permutation b_items_dir items' ->
+  forall p, fs_get (fst (run_batch N b_xform false 0 b_items_dir f)) p =
+            fs_get (fst (run_batch N b_xform false 0 items' f)) p.
+Proof.
+  intros P. apply (order_irrelevant N b_xform 0 b_items_dir items' f P b_dir_wf (b_dir_reads_no_output 0)).
+Qed.
